@@ -74,6 +74,9 @@ def generate(prop, rng):
         "relink": rng.random() < 0.25,  # compare(relink=True): unchanged files are re-created too
         "own_storage": rng.random() < 0.25,  # one explicit target file lives in a second cache, registered at its own key
         "old_via": rng.choice(["md5", "entries"]),  # how the index of the prior workspace is built
+        # the n-th removal of a workspace file fails (immutable / busy file): apply may give up, but if it
+        # returns it is held to the usual result
+        "ws_rm_fault": ({"nth": rng.randint(1, 3), "exc": rng.choice(["EACCES", "EIO"])} if rng.random() < 0.12 else None),
     }
     # some prior paths are symbolic links left by an earlier symlink-type checkout: into the cache
     # (object still there) or dangling (object collected since)
@@ -274,6 +277,10 @@ def execute(sc, ctx):
         return md5(ibuild(ws, w.localfs), state=state)
 
     old = build_old()
+    rmf = cfg.get("ws_rm_fault")
+    if rmf:
+        ctx.seam.faults = [{"at": ("unlink", "remove"), "match": "ws/", "sub": True, "nth": rmf["nth"], "exc": rmf["exc"],
+                            "name": "ws_remove", "count": 1, "sticky": True}]
     try:
         diff = compare(old, idx, delete=cfg["delete"], relink=bool(cfg.get("relink")))
         apply(diff, ws, w.localfs, onerror=onerror, state=state,
@@ -281,6 +288,11 @@ def execute(sc, ctx):
     except Exception as exc:  # noqa: BLE001
         import traceback
 
+        ctx.seam.faults = []
+        if isinstance(exc, OSError) and ctx.seam.fired.get("ws_remove"):
+            ctx.probe("apply_gave_up_after_failed_removal")
+            _finish(ctx, sc, state)
+            return
         kind_change = _kind_change_depth(sc)
         ctx.violate(
             "apply-raised", f"{type(exc).__name__}:{'nested-kind-change' if kind_change >= 1 else 'other'}",
@@ -288,6 +300,7 @@ def execute(sc, ctx):
         )
         _finish(ctx, sc, state)
         return
+    ctx.seam.faults = []
     snap = model.snapshot(ws) or {}
     files = model.files_of(snap)
     want = {rel: contents[ci] for rel, (ci, ex) in target.items()}
@@ -317,10 +330,13 @@ def execute(sc, ctx):
                 ctx.violate("exec-bit-missing", "explicit-entry", rel)
             elif snap[rel][0] == "symlink" and not (REAL["os.stat"](os.path.join(ws, rel)).st_mode & 0o100):
                 ctx.violate("exec-bit-missing", "explicit-entry:symlink", rel)
-    if cfg["delete"] and not unavailable:
+    if cfg["delete"]:
+        # (also when some sources are unavailable: that keeps target files from being created, it has no
+        # bearing on files the target does not have)
         extra = sorted(set(files) - set(want))
         if extra:
             ctx.violate("stale-file-survived", "delete-on", f"{extra}")
+    if cfg["delete"] and not unavailable:
         tdirs = {"/".join(r.split("/")[:i]) for r in want for i in range(1, len(r.split("/")))}
         sdirs = {r for r, v in snap.items() if v[0] == "dir"}
         if sdirs - tdirs:
